@@ -14,6 +14,8 @@
   * `finish_value`        `Parse.finish` on a state related to the ghost `gh` returns the Decimal denoting
                           `Spec.literalValue m neg gh.n (±gh.ev − gh.nf)` and the range error exactly when
                           that value is infinite
+  * `model_value`         the functional model `Parse.model` of `parseNumber` on every numeral `Spec.readNumber`
+                          accepts (at most `2^58 − 6216` bytes): value and error of `Spec.literalValue`
 -/
 import D128.Proofs.ParseLongInv
 import D128.Proofs.RoundKernel
@@ -134,8 +136,8 @@ theorem lit_mid (m : Mode) (neg : Bool) (n N k r : Nat) (sc : Int) (hn : n = N *
 
 /-! ## the integer arithmetic of the tail -/
 
-theorem finE_toInt (s : S2) (h0 : 0 ≤ s.exp.toInt) (h1 : s.exp.toInt < 10 ^ 10)
-    (hn : -2 ^ 62 ≤ s.nfrac.toInt ∧ s.nfrac.toInt ≤ 2 ^ 62) :
+theorem finE_toInt (s : S2) (h0 : 0 ≤ s.exp.toInt) (h1 : s.exp.toInt < 2 ^ 62)
+    (hn : -2 ^ 60 ≤ s.nfrac.toInt ∧ s.nfrac.toInt ≤ 2 ^ 60) :
     ((if s.eneg then s.exp * (-1 : Int64) else s.exp) - s.nfrac).toInt =
       (if s.eneg then -s.exp.toInt else s.exp.toInt) - s.nfrac.toInt := by
   have hm1 : (-1 : Int64).toInt = -1 := by decide
@@ -182,11 +184,11 @@ theorem trunc_ne_neg_one {r : Nat} {t : Int8} (h : t = if r = 0 then (0 : Int8) 
     ¬ t = -1 := by
   rw [h]; split <;> decide
 
-/-- **the tail of `parseNumber` on a state denoting the ghost `gh`** (at most `10^9 − 6216` significand
+/-- **the tail of `parseNumber` on a state denoting the ghost `gh`** (at most `2^58 − 6216` significand
     digits, so that a saturated exponent is out of range whatever the significand is). -/
 theorem finish_value (g : Globals) (neg : Bool) (m : Spec.Mode)
     (hm : Spec.Mode.ofNat? g.DefaultRoundingMode.toNat = some m)
-    (s : S2) (gh : G) (k r : Nat) (hR : Rel s gh k r) (hI : GInv gh) (hnd : gh.nd + 6216 ≤ 10 ^ 9)
+    (s : S2) (gh : G) (k r : Nat) (hR : Rel s gh k r) (hI : GInv gh) (hnd : gh.nd + 6216 ≤ 2 ^ 58)
     (hce : s.caneof = true) (hsd : s.sawdig = true) :
     ∃ v e, finish g neg s = .ok (v, e) ∧
       (𝔳[v]).same (Spec.literalValue m neg gh.n
@@ -244,7 +246,7 @@ theorem finish_value (g : Globals) (neg : Bool) (m : Spec.Mode)
     have hx1 := hR.ex1
     have hx2 := hR.ex2
     have hx3 := hR.ex3
-    have hE := finE_toInt s hx0 hx2 (by omega)
+    have hE := finE_toInt s hx0 (by omega) (by omega)
     rw [hR.eneg] at hE
     generalize hE64 : ((if gh.eneg = true then s.exp * (-1 : Int64) else s.exp) - s.nfrac) = E64 at hE
     have hE64' : E64 = (if s.eneg then s.exp * (-1 : Int64) else s.exp) - s.nfrac := by
@@ -258,7 +260,7 @@ theorem finish_value (g : Globals) (neg : Bool) (m : Spec.Mode)
       have hkey : 6151 ≤ sc + (k : Int) := by
         rw [← hsc]
         cases hen : gh.eneg <;> simp only [hen, Bool.false_eq_true, if_false, if_true] at hE ⊢ <;>
-          by_cases hsat : s.exp.toInt < 10 ^ 9 <;> (try have := hx3 hsat) <;> omega
+          by_cases hsat : s.exp.toInt < 2 ^ 58 <;> (try have := hx3 hsat) <;> omega
       have := lit_big m neg gh.n s.sig.toNat k r sc hR.val hN1 hkey
       rw [this]
       refine ⟨_, _, rfl, ?_, ?_⟩
@@ -271,7 +273,7 @@ theorem finish_value (g : Globals) (neg : Bool) (m : Spec.Mode)
       have hkey : sc + (k : Int) ≤ -6216 := by
         rw [← hsc]
         cases hen : gh.eneg <;> simp only [hen, Bool.false_eq_true, if_false, if_true] at hE ⊢ <;>
-          by_cases hsat : s.exp.toInt < 10 ^ 9 <;> (try have := hx3 hsat) <;> omega
+          by_cases hsat : s.exp.toInt < 2 ^ 58 <;> (try have := hx3 hsat) <;> omega
       have := lit_small m neg gh.n s.sig.toNat k r sc hR.val hR.rlt hN128 hnpos hkey
       rw [this]
       refine ⟨_, _, rfl, ?_, ?_⟩
@@ -283,7 +285,7 @@ theorem finish_value (g : Globals) (neg : Bool) (m : Spec.Mode)
       have hkey : sc + (k : Int) = E64.toInt := by
         rw [← hsc]
         cases hen : gh.eneg <;> simp only [hen, Bool.false_eq_true, if_false, if_true] at hE ⊢ <;>
-          by_cases hsat : s.exp.toInt < 10 ^ 9 <;> (try have := hx3 hsat) <;> omega
+          by_cases hsat : s.exp.toInt < 2 ^ 58 <;> (try have := hx3 hsat) <;> omega
       have hc16 := conv16_toInt E64 (by omega) (by omega)
       rw [lit_mid m neg gh.n s.sig.toNat k r sc hR.val, hkey]
       have hp : (0 : Rat) < (10 : Rat) ^ k := by positivity
@@ -348,13 +350,13 @@ theorem finish_value (g : Globals) (neg : Bool) (m : Spec.Mode)
 /-! ## the functional model of `parseNumber` -/
 
 /-- **the model computes the literal value**: for every numeral the grammar accepts (at most
-    `10^9 − 6216` bytes), with literal value `n·10^sc` according to `Spec.readNumber`, the functional
+    `2^58 − 6216` bytes), with literal value `n·10^sc` according to `Spec.readNumber`, the functional
     model `Parse.model` of `parseNumber` returns the Decimal denoting `Spec.literalValue m neg n sc`, with the
     range error exactly when that value is infinite.  (No hypothesis about `reduce128`: its termination on
     the state reached is part of `reduce128_correct`.) -/
 theorem model_value (g : Globals) (cs : List UInt8) (neg sep : Bool) (m : Spec.Mode)
     (hm : Spec.Mode.ofNat? g.DefaultRoundingMode.toNat = some m)
-    (hlen : cs.length + 6216 ≤ 10 ^ 9) (n : Nat) (sc : Int)
+    (hlen : cs.length + 6216 ≤ 2 ^ 58) (n : Nat) (sc : Int)
     (h : Spec.readNumber sep (cs.map toChar) = some (n, sc)) :
     ∃ v e, model g cs neg sep = .ok (v, e) ∧
       (𝔳[v]).same (Spec.literalValue m neg n sc).1 = true ∧
